@@ -37,7 +37,7 @@ CHECKS = {
          'sizes 0..3, every type code, name-length extremes, ISO-8859-1 names, lossy and reliable links, rw/ro cache) are '
          'explored with every single deviation (quick) / every pair of deviations on six of them (thorough) among: '
          'duplicate a reply, delay it past the retry timer (stale reply to an earlier request), drop it, pick another '
-         'runnable thread at any synchronisation point; tables of 255..1000 entries are explored with one reply fault at '
+         'runnable thread at any synchronisation point; tables of 255..600 entries are explored with one reply fault at '
          'the structurally interesting indices (first, 254..257, last). At connected, both tables must equal the '
          'device tables field by field and the four lookup functions must agree.',
          'SimCF is my reading of the TOC wire protocol; faults on link-control/platform requests (which have no retry) '
